@@ -102,6 +102,13 @@ pub fn run(run: &Run) {
         }
         true
     });
+    composing_pairs(run, "all_composing_pairs", &|s, l| match check(run, s, l) {
+        Ok(()) => true,
+        Err(_) => {
+            shrink_report(run, Prof::Opaque, Op::Enforce, s);
+            false
+        }
+    });
     collisions(run, "fingerprint_collisions", &|s, l| match check(run, s, l) {
         Ok(()) => true,
         Err(v) => {
